@@ -40,7 +40,7 @@ def transport(t):
 
 def encode_decode(t: int, c_kind: int, typ_kind: int, typ: str, extra_hdr: bool, n: int, s: str, c2: bool, keyset: bool, pick: int) -> bool:
     """
-    PRE: 0 <= t <= 3 and 0 <= typ_kind <= 2 and len(typ) <= 1 and 0 <= c_kind < NK and -2 <= n <= 2 and len(s) <= 1 and 0 <= pick <= 1
+    PRE: 0 <= t <= 3 and 0 <= typ_kind <= 2 and len(typ) == 0 and 0 <= c_kind < NK and -2 <= n <= 2 and len(s) <= 1 and 0 <= pick <= 1
     PRE: keyset or pick == 0
     POST: _
     """
@@ -48,7 +48,7 @@ def encode_decode(t: int, c_kind: int, typ_kind: int, typ: str, extra_hdr: bool,
     base, key, ks, reg = transport(t)
     header = dict(base)
     if typ_kind == 1:
-        header["typ"] = typ
+        header["typ"] = "at+jwt" + typ
     elif typ_kind == 2:
         header["typ"] = "JWT"
     if extra_hdr:
@@ -187,7 +187,7 @@ def replay(func, call):
         k = KeySet([JWKRegistry.import_key(j1), JWKRegistry.import_key(j2)]) if keyset else JWKRegistry.import_key(j1)
         header = dict(base)
         if typ_kind == 1:
-            header["typ"] = typ
+            header["typ"] = "at+jwt" + typ
         elif typ_kind == 2:
             header["typ"] = "JWT"
         if extra_hdr:
